@@ -130,16 +130,19 @@ def _parse_xml_string(xml_string, parser, charset=None):
 
 # see http://www.w3.org/TR/2000/NOTE-SOAP-20000508/
 # section 5.2.1 for an example of how the id and href attributes are used.
-def resolve_hrefs(element, xmlids):
+def resolve_hrefs(element, xmlids, _path=()):
     for e in element:
         if e.get('id'):
             continue # don't need to resolve this element
 
         elif e.get('href'):
-            resolved_element = xmlids.get(e.get('href').replace('#', ''))
+            key = e.get('href').replace('#', '')
+            resolved_element = xmlids.get(key)
             if resolved_element is None:
                 continue
-            resolve_hrefs(resolved_element, xmlids)
+            if key in _path:
+                raise Fault('Client.SoapError', "Circular href %r" % key)
+            resolve_hrefs(resolved_element, xmlids, _path + (key,))
 
             # copies the attributes
             [e.set(k, v) for k, v in resolved_element.items()]
@@ -151,7 +154,7 @@ def resolve_hrefs(element, xmlids):
             e.text = resolved_element.text
 
         else:
-            resolve_hrefs(e, xmlids)
+            resolve_hrefs(e, xmlids, _path)
 
     return element
 
